@@ -1018,7 +1018,10 @@ def find_earlier_page_break(context, children, absolute_boxes, fixed_boxes):
                 not avoid_page_break(child.style['break_inside'], context)):
             breakable_box_types = (
                 boxes.BlockBox, boxes.TableBox, boxes.TableRowGroupBox)
-            if isinstance(child, breakable_box_types):
+            is_multicol = (
+                child.style['column_width'] != 'auto' or
+                child.style['column_count'] != 'auto')
+            if isinstance(child, breakable_box_types) and not is_multicol:
                 result = find_earlier_page_break(
                     context, child.children, absolute_boxes, fixed_boxes)
                 if result:
